@@ -69,8 +69,19 @@ Variable sm : sem V M IX.
 Definition Reach (S : StateModel.store V) : Prop :=
   exists ops, MaskDisciplined g sm (init_store g) ops /\ S = fst (run_now g sm (init_store g) ops).
 
-(** an API-level store represents a store of State objects, cell by cell *)
-Definition Rep (S : StateModel.store V) (A : ApiModel.store V) : Prop := A = map abs S.
+(** an API-level store [A] represents the store [S] of State objects through the index list [ix]: cell [j] of [A] is what
+    the API sees of the State object number [ix j].  ([ix] is the identity as long as no observer ran: the clones an
+    observer made stay in [S] as garbage, the API model drops them.) *)
+Definition RepI (S : StateModel.store V) (ix : list nat) (A : ApiModel.store V) : Prop :=
+  length ix = length A /\ NoDup ix /\
+  forall j k, nth_error ix j = Some k -> exists s, nth_error S k = Some s /\ nth_error A j = Some (abs s).
+
+(** the cell an event addresses *)
+Definition ev_ref (e : ev V) : option ref :=
+  match e with
+  | EGet r _ | ESet r _ _ | ESetIf r _ _ | EClone r | ESave r | EReplace r => Some r
+  | EDraw _ _ | ESeed _ _ => None
+  end.
 
 (** the State operations performed by one API event that addresses cell [k] ([tracked] = the variables [State.save] reads).
     A clone made by the API is [state.clone(disable_auto_fork=d)]; [d] does not matter for what follows. *)
